@@ -104,8 +104,8 @@ def c_stub_ops(text, defs, ifaces):
         rows = []
         for meth, (_, body) in c_functions(text, i).items():
             m = re.search(r"Object_invoke\(self, (\w+), (\w+), (?:ObjectCounts_pack\(([^)]*)\)|0)\)", body)
-            if not m or meth in ("release", "retain"):
-                continue
+            if not m or m.group(1) in ("Object_OP_release", "Object_OP_retain"):
+                continue        # the two operations every object has (a method may be CALLED release or retain)
             v = cnum(defs.get(m.group(1), ""))
             rows.append((meth, v))
             if m.group(3):
@@ -319,7 +319,7 @@ def c_stub_envelopes(text, ifaces, cpp=False):
         else:
             funcs = {k: v[1] for k, v in c_functions(text, i).items()}
         for meth, body in funcs.items():
-            if meth in ("release", "retain"):
+            if meth in ("release", "retain") and re.search(r"Object_OP_(release|retain)", body):
                 continue
             inv = re.search(r"(?:Object_invoke\(self|invoke\()\s*,?\s*\w+, (\w+), (?:ObjectCounts_pack\(([^)]*)\)|0)\)", body)
             if not inv:
